@@ -141,8 +141,7 @@ def apply_tiff_predictor(
     buf: List[int] = []
     for scanline_i in range(0, len(data), nbytes):
         raw: List[int] = []
-        for i in range(nbytes):
-            new_value = data[scanline_i + i]
+        for i, new_value in enumerate(data[scanline_i : scanline_i + nbytes]):
             if i >= bpp:
                 new_value += raw[i - bpp]
                 new_value %= 256
